@@ -20,7 +20,7 @@ import shutil
 
 import numpy as np
 
-from vlib import gen
+from vlib import env, gen
 
 PROPERTY = "C10"
 LEVEL = "fault_enumeration"
@@ -46,7 +46,9 @@ REQUIRED_MONITORS = ["crashes_delivered", "resumes_completed", "h5_files_compare
                      "checkpoints_loaded_after_crash", "logical_crash_points", "exception_crashes",
                      "sequence_scenarios", "syscall_kills", "random_sigkills"]
 CASE_TIMEOUT = 1500.0
-BUDGET_S = {"quick": 220, "thorough": 1900}
+# budgets are sized for 16 workers; with fewer workers (VERIF_NCPU) the same work needs proportionally longer
+_SCALE = max(1.0, 16.0 / max(1, env.NCPU))
+BUDGET_S = {"quick": 200 * _SCALE, "thorough": 1800 * _SCALE}
 MIN_NONTRIVIAL = 6
 TOL = 1e-9
 
